@@ -30,5 +30,6 @@ pub mod trace;
 pub mod v1exec;
 pub mod work;
 
+#[cfg(not(feature = "no-global-alloc"))]
 #[global_allocator]
 static GLOBAL: alloc::Counting = alloc::Counting;
